@@ -2,6 +2,11 @@
 
 package state
 
+import (
+	"reflect"
+	"strconv"
+)
+
 // VerifC14Step: from ANY valid tracker state, one call of any Tracker method (String included):
 // (1) whatever it returns shares no mutable storage with the tracker, so
 // neither side can change the other; (2) lock discipline: the call is exactly
@@ -89,5 +94,160 @@ func VerifC14Step() {
 		}
 	}
 	vAssert(vInv(st), "invariant")
+	vReach("end")
+}
+
+// VerifC14History: the same two questions after HISTORIES made through the public API only
+// (so that whatever auxiliary representation the tracker keeps - caches, published
+// snapshots, new attributes - is in the state the real code leaves it in): starting from
+// NewTracker + a channel with the client and another user, K operations chosen from a
+// list of 16 (mode changes incl. bans / keys / limits / privileges, renames, info, topic,
+// membership changes); after each, every answer is heap-disjoint from the tracker and from
+// every other answer, and the answers agree with each other at that moment: Me() equals
+// GetNick(<my nick>), and a nick's privileges on a channel read the same from both sides.
+func VerifC14History() {
+	K := vParam("K", 2)
+	var st Tracker = NewTracker("me")
+	st.NewNick("n")
+	st.NewChannel("#c")
+	st.Associate("#c", "me")
+	st.Associate("#c", "n")
+	me, other := "me", "n"
+	for step := 0; step < K; step++ {
+		var ret interface{}
+		switch vLen("op"+strconv.Itoa(step), 0, 15) {
+		case 0:
+			ret = st.ChannelModes("#c", "+o", me)
+		case 1:
+			ret = st.ChannelModes("#c", "+v-o", me, me)
+		case 2:
+			ret = st.ChannelModes("#c", "+b", "*!*@a")
+		case 3:
+			ret = st.ChannelModes("#c", "+b", "*!*@b")
+		case 4:
+			ret = st.ChannelModes("#c", "-b", "*!*@a")
+		case 5:
+			ret = st.ChannelModes("#c", "+kl", "key", "5")
+		case 6:
+			ret = st.ChannelModes("#c", "+o", other)
+		case 7:
+			ret = st.NickModes(me, "+iw")
+		case 8:
+			ret = st.NickInfo(me, "id", "host", "Real")
+		case 9:
+			ret = st.ReNick(me, me+"2")
+			if ret.(*Nick) != nil {
+				me = me + "2"
+			}
+		case 10:
+			ret = st.ReNick(other, other+"2")
+			if ret.(*Nick) != nil {
+				other = other + "2"
+			}
+		case 11:
+			ret = st.Topic("#c", "topic")
+		case 12:
+			st.Dissociate("#c", other)
+			st.NewNick(other)
+		case 13:
+			ret = st.Associate("#c", other)
+		case 14:
+			st.NewChannel("#d")
+			ret = st.Associate("#d", me)
+		case 15:
+			ret = st.DelChannel("#d")
+		}
+		var snaps []interface{}
+		if ret != nil && !vIsNilPtr(ret) {
+			snaps = append(snaps, ret)
+		}
+		m, g := st.Me(), st.GetNick(me)
+		vAssert(m != nil && g != nil, "history:me-tracked")
+		if m == nil || g == nil {
+			return
+		}
+		vAssert(reflect.DeepEqual(m, g), "history:Me-agrees-with-GetNick")
+		snaps = append(snaps, m, g)
+		if c := st.GetChannel("#c"); c != nil {
+			snaps = append(snaps, c)
+			if cp, on := c.Nicks[me]; on {
+				vAssert(reflect.DeepEqual(cp, m.Channels["#c"]), "history:privileges-agree-from-both-sides")
+			}
+		}
+		if o := st.GetNick(other); o != nil {
+			snaps = append(snaps, o)
+		}
+		if cp, on := st.IsOn("#c", me); on {
+			snaps = append(snaps, cp)
+		}
+		for i := range snaps {
+			vAssert(!vShares(snaps[i], st), "history:answer-is-private-copy")
+			for k := 0; k < i; k++ {
+				vAssert(!vShares(snaps[i], snaps[k]), "history:answers-share-nothing-with-each-other")
+			}
+		}
+	}
+	vReach("end")
+}
+
+// vIsNilPtr: a typed nil pointer inside an interface (ReNick / ChannelModes return nil on refusal).
+func vIsNilPtr(x interface{}) bool {
+	switch p := x.(type) {
+	case *Nick:
+		return p == nil
+	case *Channel:
+		return p == nil
+	case *ChanPrivs:
+		return p == nil
+	}
+	return false
+}
+
+// VerifStateRepr: a self-test of the direct-heap pre-state builder (vBuild), run with every
+// check that uses it. One concrete state is produced twice - by vBuild from the model and
+// through the public API - and every query, and one mutation followed by every query, must
+// give deep-equal answers on both without panicking. If it does not, the tracker's
+// representation is no longer the one vBuild assumes (an added cache, a published snapshot,
+// a folded key ...): the checks that start from vBuild states are then reported as BROKEN
+// (exit 2) instead of raising alarms about states the real code never produces.
+func VerifStateRepr() {
+	m := &vModel{}
+	m.nOn[0], m.nName[0], m.nId[0], m.nHost[0], m.nReal[0] = true, "me", "i", "h", "r"
+	m.nMode[0].Invisible = true
+	ok := false
+	panicked := vPanics(func() {
+		var api Tracker = NewTracker("me")
+		api.NickInfo("me", "i", "h", "r")
+		api.NickModes("me", "+i")
+		if vNN > 1 && vNC > 0 {
+			m.nOn[1], m.nName[1], m.nId[1], m.nHost[1], m.nReal[1] = true, "n", "j", "g", "s"
+			m.cOn[0], m.cName[0], m.cTop[0] = true, "#c", "t"
+			m.cMode[0].Key, m.cMode[0].Moderated = "k", true
+			m.mem[0][0], m.mem[1][0] = true, true
+			m.priv[1][0].Op = true
+			api.NewNick("n")
+			api.NickInfo("n", "j", "g", "s")
+			api.NewChannel("#c")
+			api.Topic("#c", "t")
+			api.Associate("#c", "me")
+			api.Associate("#c", "n")
+			api.ChannelModes("#c", "+okm", "n", "k")
+		}
+		direct := vBuild(m).st
+		same := func() bool {
+			cp1, on1 := direct.IsOn("#c", "n")
+			cp2, on2 := api.IsOn("#c", "n")
+			return reflect.DeepEqual(direct.Me(), api.Me()) && reflect.DeepEqual(direct.GetNick("n"), api.GetNick("n")) &&
+				reflect.DeepEqual(direct.GetNick("me"), api.GetNick("me")) && reflect.DeepEqual(direct.GetChannel("#c"), api.GetChannel("#c")) &&
+				on1 == on2 && reflect.DeepEqual(cp1, cp2)
+		}
+		ok = same()
+		direct.ChannelModes("#c", "+v", "me")
+		api.ChannelModes("#c", "+v", "me")
+		direct.ReNick("n", "n2")
+		api.ReNick("n", "n2")
+		ok = ok && same() && reflect.DeepEqual(direct.GetNick("n2"), api.GetNick("n2"))
+	})
+	vAssert(!panicked && ok, "repr:direct-heap-state-matches-api-built-state")
 	vReach("end")
 }
